@@ -231,7 +231,104 @@ def loader_reports_what_it_loaded(idx, prog):
     return ok
 
 
+_UNDECIDED = []
+
+
+def _temporary_registration(idx, f_, node0=None):
+    """ids of the nodes of `f_` that belong to a temporary entry in sys.modules: a `try` whose body stores `sys.modules[k] = m`
+    and whose `finally` deletes entries of sys.modules again (what a loader does so that a package's __init__ can import
+    relatively while it executes).  Whether every entry made is removed on every exit is not decided by these rules."""
+    node0 = node0 or getattr(f_, "node_orig", None) or getattr(f_, "node", None)
+    ids = set()
+    if node0 is None:
+        return ids
+
+    def is_sysmod(e):
+        return isinstance(e, (ast.Attribute, ast.Name)) and (idx.qualname(f_.module, e, f_) or "") == "sys.modules"
+
+    for t in ast.walk(node0):
+        if not (isinstance(t, ast.Try) and t.finalbody):
+            continue
+        stores = [x for st in t.body for x in ast.walk(st) if isinstance(x, ast.Assign) and any(isinstance(tg, ast.Subscript) and is_sysmod(tg.value) for tg in x.targets)]
+        dels = [x for st in t.finalbody for x in ast.walk(st) if isinstance(x, ast.Delete) and any(isinstance(tg, ast.Subscript) and is_sysmod(tg.value) for tg in x.targets)]
+        pops = [x for st in t.finalbody for x in ast.walk(st) if isinstance(x, ast.Call) and isinstance(x.func, ast.Attribute) and x.func.attr == "pop" and is_sysmod(x.func.value)]
+        if stores and (dels or pops):
+            for x in stores + dels + pops:
+                ids.add(id(x))
+            for st in t.finalbody:
+                for x in ast.walk(st):
+                    ids.add(id(x))
+    return ids
+
+
+def _holds_loaded_modules(idx, prog, name):
+    """every store into the class-level table `name` is `<cls>.<name>[<key>] = m` with m bound from importlib.util.module_from_spec /
+    imp.load_module in the same method, and nothing else mutates it"""
+    n_store = 0
+    for fi in prog.methods.values():
+        node0 = getattr(fi, "node_orig", None) or fi.node
+        for x in ast.walk(node0):
+            if isinstance(x, ast.Attribute) and x.attr == name and isinstance(x.ctx, ast.Store):
+                return False
+            if isinstance(x, ast.Call) and isinstance(x.func, ast.Attribute) and isinstance(x.func.value, ast.Attribute) and x.func.value.attr == name \
+                    and x.func.attr in ("update", "setdefault", "pop", "popitem", "clear", "append", "add", "__setitem__"):
+                return False
+            if isinstance(x, ast.Assign) and any(isinstance(t, ast.Subscript) and isinstance(t.value, ast.Attribute) and t.value.attr == name for t in x.targets):
+                if not isinstance(x.value, ast.Name):
+                    return False
+                srcs = [a.value for a in ast.walk(node0) if isinstance(a, ast.Assign) and any(isinstance(t, ast.Name) and t.id == x.value.id for t in a.targets)]
+                if not srcs or not all(isinstance(v, ast.Call) and (idx.qualname(fi.module, v.func, fi) or K.src(v.func)).split(".")[-1] in ("module_from_spec", "load_module") for v in srcs):
+                    return False
+                n_store += 1
+    return n_store > 0
+
+
+def _only_read_by_callee(idx, mod, fi, attr_node):
+    """`<program>.command_library` appears as a positional argument of a call to a function of the package whose matching
+    parameter is only read there: looked up (.get / [] load / in / iteration), never stored into, mutated, returned, kept or passed on"""
+    call = None
+    for c in own_nodes(fi.node):
+        if isinstance(c, ast.Call) and any(a is attr_node for a in c.args):
+            call = c
+    if call is None or not isinstance(call.func, ast.Name):
+        return False
+    pos = [i for i, a in enumerate(call.args) if a is attr_node][0]
+    r = idx.resolve(mod, call.func, fi)
+    callee = r[1] if r is not None and r[0] == "func" else None
+    if callee is None or pos >= len(callee.node.args.args):
+        return False
+    pn = callee.node.args.args[pos].arg
+    par = {}
+    for x in ast.walk(callee.node):
+        for ch in ast.iter_child_nodes(x):
+            par[id(ch)] = x
+    for x in ast.walk(callee.node):
+        if not (isinstance(x, ast.Name) and x.id == pn):
+            continue
+        if isinstance(x.ctx, (ast.Store, ast.Del)):
+            return False
+        up = par.get(id(x))
+        # `(p or {})` is still p
+        while isinstance(up, ast.BoolOp) and isinstance(up.op, ast.Or):
+            x, up = up, par.get(id(up))
+        if isinstance(up, ast.Attribute) and up.value is x and up.attr in ("get", "keys", "values", "items", "__contains__") and isinstance(par.get(id(up)), ast.Call):
+            continue
+        if isinstance(up, ast.Subscript) and up.value is x and isinstance(up.ctx, ast.Load):
+            continue
+        if isinstance(up, ast.Compare) and x in up.comparators and all(isinstance(o, (ast.In, ast.NotIn, ast.Is, ast.IsNot)) for o in up.ops):
+            continue
+        if isinstance(up, ast.Compare) and up.left is x and all(isinstance(o, (ast.Is, ast.IsNot)) for o in up.ops):
+            continue
+        if isinstance(up, (ast.For, ast.comprehension)) and up.iter is x:
+            continue
+        if isinstance(up, (ast.If, ast.IfExp, ast.While)) and up.test is x:
+            continue
+        return False
+    return True
+
+
 def run(ctx, idx):
+    del _UNDECIDED[:]
     A = K.anchors(idx)
     ctx.rule("C19.a", "The predicate selecting registry entries for a requested library is module equality or a dotted-prefix test (lib + '.'); a bare startswith(lib) or substring test also admits libraries whose names merely share the prefix.")
     ctx.rule("C19.b", "The store of the per-program command lookup is dominated by the duplicate-name test that raises.")
@@ -273,6 +370,7 @@ def run(ctx, idx):
         if node0 is None:
             continue
         n_fn += 1
+        temp_ = _temporary_registration(idx, f_)
         for x_ in ast.walk(node0):
             hit = None
             if isinstance(x_, ast.Call) and isinstance(x_.func, ast.Attribute) and x_.func.attr in ("append", "insert", "extend", "remove", "pop", "clear", "sort", "reverse", "update", "setdefault", "__setitem__", "popitem"):
@@ -288,6 +386,9 @@ def run(ctx, idx):
                     q_ = idx.qualname(f_.module, base_, f_) if isinstance(base_, (ast.Attribute, ast.Name)) else None
                     if q_ in ("sys.path", "sys.modules", "sys.meta_path", "sys.path_hooks"):
                         hit = q_
+            if hit and id(x_) in temp_:
+                _UNDECIDED.append("C19.e: %s registers a module in sys.modules while it executes and removes entries again in a `finally` (line %d); whether the import state is left exactly as found on every exit is not decided" % (f_.qualname, x_.lineno))
+                continue
             if hit:
                 ctx.violate("C19.e", "%s::import-state(%s)" % (f_.key, hit), K.rel(f_), x_.lineno, "`%s` changes `%s`, which belongs to the whole process and is never put back: the libraries a later program can import - and which file a bare module name resolves to - now depend on the programs constructed before it" % (K.src(x_)[:60], hit))
     ctx.floor("C19.e", "functions on the construction path", n_fn, 2)
@@ -402,8 +503,11 @@ def run(ctx, idx):
     con = "%s::independent-of-import-history" % lc.key
     hist = []
     for f_ in K.helper_closure(idx, lc) + [g_ for g_ in K.helper_closure(idx, init) if g_ is not lc]:
+        temp_ = _temporary_registration(idx, f_, f_.node)
         for n in own_nodes(f_.node):
             if isinstance(n, ast.Attribute) and (idx.qualname(f_.module, n, f_) or "") in ("sys.modules", "sys.meta_path", "sys.path_importer_cache"):
+                if id(n) in temp_ or any(id(p_) in temp_ for p_ in ast.walk(f_.node) if isinstance(p_, (ast.Assign, ast.Delete)) and any(n is y for y in ast.walk(p_))):
+                    continue  # the loader's own temporary entry (C19.e answers for it)
                 hist.append((f_, n))
     rec_ = completed_loads_record(idx, prog) if hist else None
     if hist and rec_ is not None and all(f_ is lc for f_, n in hist):
@@ -543,6 +647,9 @@ def run(ctx, idx):
                 ctx.ob("C19.c", "%s::lookup-store" % w, mod.rel, n.lineno, ok, "per-instance lookup assigned in __init__" if ok else "the command lookup is reassigned outside Program.__init__")
             else:
                 ok = fi is not None and fi.name in ("find_command_class",) and fi.cls is prog
+                if not ok and fi is not None and _only_read_by_callee(idx, mod, fi, n):
+                    ctx.hold("C19.c", "%s::lookup-read" % w, mod.rel, n.lineno, "the program's own lookup is handed to a function that only reads it (no store, no mutating method, not kept)", nontrivial=False)
+                    continue
                 ctx.ob("C19.c", "%s::lookup-read" % w, mod.rel, n.lineno, ok, "read through find_command_class" if ok else "the command lookup is read outside find_command_class: %s" % K.src(n), nontrivial=not ok)
     pm = prog.module
     for name, v in pm.consts.items():
@@ -552,6 +659,8 @@ def run(ctx, idx):
         for name, v in c.attrs.items():
             if isinstance(v, (ast.Dict, ast.List, ast.Set)) and name == completed_loads_record(idx, prog):
                 ctx.hold("C19.c", "%s::class-cache(%s)" % (pm.rel, name), pm.rel, v.lineno, "`%s` only records libraries whose load has completed (see C19.a); it holds no commands and no lookups" % name)
+            elif isinstance(v, (ast.Dict, ast.List, ast.Set)) and _holds_loaded_modules(idx, prog, name):
+                _UNDECIDED.append("C19.c: `%s` on Program keeps modules loaded from a file under a computed name (the interpreter's module cache, re-made); whether that name separates every pair of requests is not decided" % name)
             elif isinstance(v, (ast.Dict, ast.List, ast.Set)):
                 ctx.violate("C19.c", "%s::class-cache(%s)" % (pm.rel, name), pm.rel, v.lineno, "class-level mutable `%s` on Program is shared by every program in the process" % name)
     # find_command_class returns a lookup in the per-instance table only
@@ -561,3 +670,7 @@ def run(ctx, idx):
     rets = [n for n in own_nodes(fcc.node) if isinstance(n, ast.Return)]
     ok = len(rets) == 1 and K.src(rets[0].value).startswith("%s.command_library" % K.self_name(fcc))
     ctx.ob("C19.c", "%s::per-instance" % fcc.key, K.rel(fcc), fcc.node.lineno, ok, "resolves names in the per-instance lookup only" if ok else "find_command_class consults something other than the per-instance lookup: %s" % (K.src(rets[0].value) if rets else "no return"))
+    if _UNDECIDED:
+        msg = _UNDECIDED[0]
+        del _UNDECIDED[:]
+        raise AnalysisError(msg)
